@@ -164,5 +164,23 @@ def extract_defaults():
     return regen.write_if_changed("C10Defaults.v", "\n".join(lines) + "\n")
 
 
-EXTRACTORS = {"c10_defaults": extract_defaults}
+def extract_defaults_closed():
+    """Fail closed WITHOUT stopping the run: when a Rust item no longer has the recognised shape the generated file
+    loses its tables, so Redir/GenTie.v (c10_tables_match_source) stops compiling = a broken proof obligation, and the
+    check goes on to the correspondence and the failing-input search, which print the concrete input if there is one.
+    (A missing source file is still a CheckBroken.)"""
+    try:
+        return extract_defaults()
+    except core.CheckBroken as e:
+        msg = str(e)
+        if "cannot read" in msg:
+            raise
+        core.log("c10 translator: " + msg)
+        text = ("(** GENERATED by translator/ex_c10.py - do not edit.\n    The Rust source no longer has the shape this extractor recognises:\n    %s\n"
+                "    No table is emitted; c10_tables_match_source cannot be re-checked. *)\n"
+                "Definition c10_unrecognised_source_shape : unit := tt.\n") % msg.replace("*)", "* )").replace("(*", "( *").replace('"', "'")
+        return regen.write_if_changed("C10Defaults.v", text)
+
+
+EXTRACTORS = {"c10_defaults": extract_defaults_closed}
 USES = {"C10": ["c10_defaults"]}
